@@ -21,7 +21,7 @@ fn tier_pick<T>(tier: &str, q: T, t: T) -> T {
 
 fn run_c19(tier: &str) -> i32 {
     let mut rep = Report::new("C19", tier);
-    rep.rule = "per runtime (tokio, smol): DFS over message sequences (1..3 messages, each size from the alphabet, some far larger than the 4.6 KB socket buffers) x driver schedules: the first N steps are choice points among {default = alternate sender/receiver, poll the sender, poll the receiver, drop the pending send future and go on} with a deviation budget, then the default schedule runs to completion; one- and two-directional traffic; plus 2..3 messages (one of 70..150 KB) sent with send_call or each as a chain of its own, one send abandoned at its 1st / 2nd / 4th pending poll, the rest and a final flush following, raw bytes compared at a std reader; plus listener cases {bound, inherited descriptor} x 1..8 clients; plus listeners {bound, inherited descriptor left in blocking mode, inherited descriptor in non-blocking mode} x 1..3 clients x for each client whether accept is polled before it connects (must come back pending, then complete) or after, with traffic both ways on every accepted connection (a watchdog turns a listener that blocks its thread into a verdict); plus, with loom, every interleaving of 3..4 threads that create connections (identifiers pairwise distinct). Every schedule is a real execution over a real socketpair on one thread. Distinct = distinct (received sequence, abandoned sends)".into();
+    rep.rule = "per runtime (tokio, smol): DFS over message sequences (1..3 messages, each size from the alphabet, some far larger than the 4.6 KB socket buffers) x driver schedules: the first N steps are choice points among {default = alternate sender/receiver, poll the sender, poll the receiver, drop the pending send future and go on} with a deviation budget, then the default schedule runs to completion; one- and two-directional traffic; plus 2..3 messages (one of 70..150 KB) sent with send_call or each as a chain of its own, one send abandoned at its 1st / 2nd / 4th pending poll, the rest and a final flush following, raw bytes compared at a std reader; plus a raw peer that writes 1..2 (thorough 3) frames of 9 B .. 6 KB and then shuts down its sending side / closes / closes with data of ours unread before the zlink end has read anything (every frame must still be received), also with our write half dropped first; plus listener cases {bound, inherited descriptor} x 1..8 clients; plus listeners {bound, inherited descriptor left in blocking mode, inherited descriptor in non-blocking mode} x 1..3 clients x for each client whether accept is polled before it connects (must come back pending, then complete) or after, with traffic both ways on every accepted connection (a watchdog turns a listener that blocks its thread into a verdict); plus, with loom, every interleaving of 3..4 threads that create connections (identifiers pairwise distinct). Every schedule is a real execution over a real socketpair on one thread. Distinct = distinct (received sequence, abandoned sends)".into();
     rep.assumptions = vec![
         "the kernel socket is a FIFO whose answers are a function of the operation sequence; how many bytes each write accepts is observed, not enumerated".into(),
         "connection identifiers are compared for distinctness within one process, sequentially (the counter is a single atomic fetch_add)".into(),
@@ -92,6 +92,11 @@ fn run_c19(tier: &str) -> i32 {
     // reader gets at the other end
     rep.require_goal("chain-send-abandoned-then-another-chain");
     rep.add(abandoned_sends_sweep(tier, "sockets:"));
+    // a raw peer that writes its frames and leaves before the zlink end reads anything; one half of
+    // a split connection dropped while the other goes on
+    rep.require_goal("peer-leaves-with-data-of-ours-unread");
+    rep.require_goal("one-half-of-a-split-connection-dropped");
+    rep.add(goodbye_sweep(tier, "sockets:"));
     // connection identifiers under threads: zlink-core's id counter is a loom atomic in the `loom`
     // build flavor; the child explores every interleaving of 3..4 threads creating connections
     {
@@ -247,6 +252,36 @@ fn c02_child(tier: &str) -> i32 {
     0
 }
 
+/// A raw peer that writes its frames and goes away before the zlink end reads (child of C01 / C07, part of C19).
+fn goodbye_sweep(tier: &str, class_prefix: &str) -> xplore::Stats {
+    let cfg = Config { max_wall: std::time::Duration::from_secs(tier_pick(tier, 60, 900)), threads: 8, ..Default::default() };
+    let cases = c19::goodbye_cases(tier_pick(tier, 2, 3));
+    sweep("peer-writes-then-leaves/tokio+smol", cases.len() as u64, &cfg, |i, s| {
+        let (rt, sizes, g, d) = &cases[i as usize];
+        s.goal("peer-leaves-before-anything-was-read");
+        if *g == 2 {
+            s.goal("peer-leaves-with-data-of-ours-unread");
+        }
+        if *d {
+            s.goal("one-half-of-a-split-connection-dropped");
+        }
+        match c19::goodbye_case(*rt, sizes, *g, *d) {
+            Ok(n) => {
+                s.steps(n);
+                s.pass(xplore::H64::new().u(i).get())
+            }
+            Err((c, det)) => s.fail(c.replace("sockets:", class_prefix), format!("{rt:?}: {det}"), json!({"goodbye_case": [format!("{rt:?}"), sizes, g, d]})),
+        }
+    })
+}
+
+fn c01_child(tier: &str) -> i32 {
+    let st = goodbye_sweep(tier, "framing:");
+    eprintln!("[C01 child] {} cases, {} violation classes, {:.1}s", st.evals, st.violations.len(), st.wall);
+    println!("{}", xplore::report::child_json(&[st], "C19"));
+    0
+}
+
 fn abandoned_sends_sweep(tier: &str, class_prefix: &str) -> xplore::Stats {
     let cfg = Config { max_wall: std::time::Duration::from_secs(tier_pick(tier, 60, 900)), threads: 8, ..Default::default() };
     let cases = c19::raw_wire_abandon_cases(tier == "thorough");
@@ -332,6 +367,16 @@ fn replay(path: &str) -> i32 {
                     Some(d) => Verdict::fail("sockets:connection-ids-not-distinct", d.to_string()),
                     None if j.is_null() => Verdict::fail("sockets:loom-child-failed", "no verdict from the loom child".to_string()),
                     None => Verdict::Pass(0),
+                }))
+            }
+            "C19" if v["case"]["goodbye_case"].is_array() => {
+                let c = &v["case"]["goodbye_case"];
+                let rt = if c[0] == "Tokio" { RtKind::Tokio } else { RtKind::Smol };
+                let sizes: Vec<usize> = c[1].as_array().map(|a| a.iter().map(|x| x.as_u64().unwrap_or(9) as usize).collect()).unwrap_or_default();
+                let r = c19::goodbye_case(rt, &sizes, c[2].as_u64().unwrap_or(0) as usize, c[3].as_bool().unwrap_or(false));
+                (vec![format!("goodbye case {c}")], Ok(match r {
+                    Ok(_) => Verdict::Pass(0),
+                    Err((c, d)) => Verdict::fail(c, d),
                 }))
             }
             "C19" if v["case"]["raw_wire_case"].is_array() => {
@@ -432,6 +477,7 @@ fn main() {
         Some("c10-child") => c10_child(&tier),
         Some("c09-child") => c09_child(&tier),
         Some("c03-child") => c03_child(&tier),
+        Some("c01-child") => c01_child(&tier),
         Some("c02-child") => c02_child(&tier),
         Some("c08-child") => realsrv_child(&tier, false),
         Some("c18-child") => realsrv_child(&tier, true),
